@@ -267,6 +267,8 @@ def run(ctx, res):
     res.extra["premises"] = {k: {"ok": v[0], "detail": v[1]} for k, v in premise_cache.items()}
     no_unsafe(ctx, res, bodies)
     recursion_depth(ctx, res, bodies)
+    from . import deletion as _deletion
+    _deletion.scanners_move(ctx, res, "C01.T")
     for o in ledger[:6]:
         res.samples.append(o)
 
